@@ -94,6 +94,13 @@ def run_case(case, ctx):
         xin = float(x[0])
     else:
         xin = x.copy()
+        k = (case.get('seed', 0) // 5) % 8
+        if k == 0:
+            xin = x.tolist()
+            ctx.count('x_given_as:list')
+        elif k == 1:
+            xin = tuple(x.tolist())
+            ctx.count('x_given_as:tuple')
     args, kwds = (scale_arg,), dict(shift=shift_kw)
     cls = nds.Gradient if gradient else nds.Jacobian
     try:
